@@ -1,15 +1,810 @@
-//! Engine `ddl` — not built yet (stub).
+//! Engine `ddl` (C15): DDL interleaved with DML through the public API (`Database`, `Session`), with reopen, against the
+//! dynamic-catalog model `Model/Ddl.lean`.  Case syntax: see `cfg/C15.py`.
+use super::hist::{self, Stmt};
 use super::{Case, Engine, Tier};
 use crate::rng::Rng;
+use axmosdb::tcp::session::Session;
+use axmosdb::{DBConfig, Database};
+use std::collections::BTreeMap;
+use std::sync::atomic::Ordering;
 
 pub struct DdlEngine;
 
-impl Engine for DdlEngine {
-    fn gen_cases(&self, _rng: &mut Rng, _tier: Tier) -> Vec<Case> {
-        Vec::new()
+#[derive(Clone, Debug)]
+pub struct ColSpec {
+    pub name: String,
+    pub ty: String,
+    pub not_null: bool,
+    pub unique: bool,
+    pub default: Option<hist::Val>,
+}
+
+#[derive(Clone, Debug)]
+pub enum DStmt {
+    Dml(Stmt),
+    CreateTable { name: String, cols: Vec<ColSpec>, keys: Vec<(bool, Vec<String>)> },
+    CreateIndex { table: String, cols: Vec<String> },
+    AddColumn { table: String, col: ColSpec },
+    DropColumn { table: String, col: String },
+    AddKey { table: String, pk: bool, cols: Vec<String> },
+    SetNotNull { table: String, col: String },
+    DropNotNull { table: String, col: String },
+    DropTable { table: String },
+}
+
+#[derive(Clone, Debug)]
+pub enum DOp {
+    Begin(String),
+    Commit(String),
+    Rollback(String),
+    Drop(String),
+    Exec(String, DStmt),
+    Auto(DStmt),
+    Reopen,
+}
+
+fn parse_colspec(c: &str) -> Option<ColSpec> {
+    // name:type[!][*][=default]
+    let (head, default) = match c.split_once('=') {
+        Some((h, d)) => (h, Some(hist::parse_val(d)?)),
+        None => (c, None),
+    };
+    let parts: Vec<&str> = head.split(':').collect();
+    if parts.len() != 2 {
+        return None;
     }
-    fn exec(&mut self, _line: &str) -> String {
-        "unimplemented".into()
+    let mut ty = parts[1].to_string();
+    let (mut not_null, mut unique) = (false, false);
+    loop {
+        if let Some(t) = ty.strip_suffix('!') {
+            not_null = true;
+            ty = t.to_string();
+        } else if let Some(t) = ty.strip_suffix('*') {
+            unique = true;
+            ty = t.to_string();
+        } else {
+            break;
+        }
+    }
+    if !hist::ident(parts[0]) || !matches!(ty.as_str(), "big" | "int" | "text") {
+        return None;
+    }
+    Some(ColSpec { name: parts[0].to_string(), ty, not_null, unique, default })
+}
+
+fn parse_group(g: &str) -> Option<(bool, Vec<String>)> {
+    let (pk, body) = match g.strip_prefix('^') {
+        Some(r) => (true, r),
+        None => (false, g),
+    };
+    let names: Vec<String> = body.split('+').map(|x| x.to_string()).collect();
+    if names.is_empty() || !names.iter().all(|n| hist::ident(n)) {
+        return None;
+    }
+    Some((pk, names))
+}
+
+fn parse_dstmt(ws: &[&str]) -> Option<DStmt> {
+    match ws {
+        ["ct", spec] => {
+            let parts: Vec<&str> = spec.split('(').collect();
+            if parts.len() != 2 || !hist::ident(parts[0]) {
+                return None;
+            }
+            let rest = parts[1].strip_suffix(')')?;
+            let mut groups = rest.split('/');
+            let cols: Option<Vec<ColSpec>> = groups.next()?.split(',').map(parse_colspec).collect();
+            let cols = cols?;
+            if cols.is_empty() {
+                return None;
+            }
+            let keys: Option<Vec<(bool, Vec<String>)>> = groups.map(parse_group).collect();
+            Some(DStmt::CreateTable { name: parts[0].to_string(), cols, keys: keys? })
+        }
+        ["ci", t, g] if hist::ident(t) => {
+            let (pk, cols) = parse_group(g)?;
+            if pk {
+                return None;
+            }
+            Some(DStmt::CreateIndex { table: t.to_string(), cols })
+        }
+        ["ac", t, c] if hist::ident(t) => Some(DStmt::AddColumn { table: t.to_string(), col: parse_colspec(c)? }),
+        ["dc", t, c] if hist::ident(t) && hist::ident(c) => Some(DStmt::DropColumn { table: t.to_string(), col: c.to_string() }),
+        ["ak", t, g] if hist::ident(t) => {
+            let (pk, cols) = parse_group(g)?;
+            Some(DStmt::AddKey { table: t.to_string(), pk, cols })
+        }
+        ["sn", t, c] if hist::ident(t) && hist::ident(c) => Some(DStmt::SetNotNull { table: t.to_string(), col: c.to_string() }),
+        ["dn", t, c] if hist::ident(t) && hist::ident(c) => Some(DStmt::DropNotNull { table: t.to_string(), col: c.to_string() }),
+        ["dt", t] if hist::ident(t) => Some(DStmt::DropTable { table: t.to_string() }),
+        _ => hist::parse_stmt(ws).map(DStmt::Dml),
+    }
+}
+
+fn parse_dop(s: &str) -> Option<DOp> {
+    let ws: Vec<&str> = s.split_whitespace().collect();
+    match ws.as_slice() {
+        ["reopen"] => Some(DOp::Reopen),
+        ["db", rest @ ..] => Some(DOp::Auto(parse_dstmt(rest)?)),
+        [s, "begin"] if hist::sess_name(s) => Some(DOp::Begin(s.to_string())),
+        [s, "commit"] if hist::sess_name(s) => Some(DOp::Commit(s.to_string())),
+        [s, "rollback"] if hist::sess_name(s) => Some(DOp::Rollback(s.to_string())),
+        [s, "drop"] if hist::sess_name(s) => Some(DOp::Drop(s.to_string())),
+        [s, rest @ ..] if hist::sess_name(s) => Some(DOp::Exec(s.to_string(), parse_dstmt(rest)?)),
+        _ => None,
+    }
+}
+
+pub fn parse_case(line: &str) -> Option<Vec<DOp>> {
+    let body = line.trim().strip_prefix("ddl |")?;
+    let body = body.trim();
+    let mut out = Vec::new();
+    if !body.is_empty() {
+        for o in body.split(" ; ") {
+            out.push(parse_dop(o)?);
+        }
+    }
+    Some(out)
+}
+
+fn sql_type(ty: &str) -> &'static str {
+    match ty {
+        "big" => "BIGINT",
+        "int" => "INT",
+        _ => "TEXT",
+    }
+}
+
+fn sql_col(c: &ColSpec) -> String {
+    let mut s = format!("{} {}", c.name, sql_type(&c.ty));
+    if c.not_null {
+        s.push_str(" NOT NULL");
+    }
+    if let Some(d) = &c.default {
+        s.push_str(&format!(" DEFAULT {}", hist::sql_val(d)));
+    }
+    s
+}
+
+pub fn sql_of(st: &DStmt) -> String {
+    match st {
+        DStmt::Dml(s) => hist::sql_of(s),
+        DStmt::CreateTable { name, cols, keys } => {
+            let mut parts: Vec<String> = cols.iter().map(sql_col).collect();
+            for c in cols {
+                if c.unique {
+                    parts.push(format!("UNIQUE({})", c.name));
+                }
+            }
+            for (pk, names) in keys {
+                parts.push(format!("{} ({})", if *pk { "PRIMARY KEY" } else { "UNIQUE" }, names.join(", ")));
+            }
+            format!("CREATE TABLE {} ({})", name, parts.join(", "))
+        }
+        DStmt::CreateIndex { table, cols } => {
+            format!("CREATE UNIQUE INDEX ix{}{} ON {} ({})", table, cols.join(""), table, cols.join(", "))
+        }
+        DStmt::AddColumn { table, col } => format!("ALTER TABLE {} ADD COLUMN {}", table, sql_col(col)),
+        DStmt::DropColumn { table, col } => format!("ALTER TABLE {} DROP COLUMN {}", table, col),
+        DStmt::AddKey { table, pk, cols } => format!(
+            "ALTER TABLE {} ADD CONSTRAINT {} ({})",
+            table,
+            if *pk { "PRIMARY KEY" } else { "UNIQUE" },
+            cols.join(", ")
+        ),
+        DStmt::SetNotNull { table, col } => format!("ALTER TABLE {} ALTER COLUMN {} SET NOT NULL", table, col),
+        DStmt::DropNotNull { table, col } => format!("ALTER TABLE {} ALTER COLUMN {} DROP NOT NULL", table, col),
+        DStmt::DropTable { table } => format!("DROP TABLE {}", table),
+    }
+}
+
+fn tables_of(ops: &[DOp]) -> Vec<String> {
+    let mut out: Vec<String> = Vec::new();
+    let mut add = |t: &str| {
+        if !out.iter().any(|x| x == t) {
+            out.push(t.to_string());
+        }
+    };
+    for op in ops {
+        let st = match op {
+            DOp::Exec(_, st) | DOp::Auto(st) => st,
+            _ => continue,
+        };
+        match st {
+            DStmt::CreateTable { name, .. } => add(name),
+            DStmt::CreateIndex { table, .. }
+            | DStmt::AddColumn { table, .. }
+            | DStmt::DropColumn { table, .. }
+            | DStmt::AddKey { table, .. }
+            | DStmt::SetNotNull { table, .. }
+            | DStmt::DropNotNull { table, .. }
+            | DStmt::DropTable { table } => add(table),
+            DStmt::Dml(s) => match s {
+                Stmt::Sel { table, .. } | Stmt::Ins { table, .. } | Stmt::Upd { table, .. } | Stmt::Del { table, .. } => add(table),
+            },
+        }
+    }
+    out
+}
+
+pub fn run_case(line: &str) -> String {
+    let _quiet = hist::QuietStdout::new();
+    let Some(ops) = parse_case(line) else { return "bad-op".into() };
+    let dir = std::env::temp_dir().join(format!("axv-ddl-{}-{}", std::process::id(), hist::COUNTER.fetch_add(1, Ordering::SeqCst)));
+    let _ = std::fs::remove_dir_all(&dir);
+    std::fs::create_dir_all(&dir).unwrap();
+    let out = run_in(&dir, &ops);
+    let _ = std::fs::remove_dir_all(&dir);
+    out
+}
+
+fn is_read(st: &DStmt) -> bool {
+    matches!(st, DStmt::Dml(Stmt::Sel { .. }))
+}
+
+fn run_in(dir: &std::path::Path, ops: &[DOp]) -> String {
+    let path = dir.join("db.axm");
+    let mut db = match Database::create(&path, DBConfig::default()) {
+        Ok(d) => d,
+        Err(e) => return format!("create-failed ## {}", e),
+    };
+    // warm-up: a committed transaction with id > 0 (as engine `hist`)
+    let _ = db.execute("CREATE TABLE warmupzz (k BIGINT)");
+    let mut diag: Vec<String> = Vec::new();
+    let mut sessions: BTreeMap<String, Session> = BTreeMap::new();
+    let mut outs: Vec<String> = Vec::new();
+    for op in ops {
+        let o = match op {
+            DOp::Begin(s) => {
+                sessions.remove(s);
+                match db.session() {
+                    Ok(x) => {
+                        sessions.insert(s.clone(), x);
+                        "ok".to_string()
+                    }
+                    Err(e) => hist::err_class(&e.to_string()).to_string(),
+                }
+            }
+            DOp::Commit(s) => match sessions.get_mut(s) {
+                None => "nosession".into(),
+                Some(x) => {
+                    let o = match x.commit_transaction() {
+                        Ok(()) => "ok".to_string(),
+                        Err(e) => {
+                            diag.push(e.to_string().chars().take(100).collect());
+                            hist::err_class(&e.to_string()).to_string()
+                        }
+                    };
+                    sessions.remove(s);
+                    o
+                }
+            },
+            DOp::Rollback(s) => match sessions.get_mut(s) {
+                None => "nosession".into(),
+                Some(x) => {
+                    let o = match x.abort_transaction() {
+                        Ok(()) => "ok".to_string(),
+                        Err(e) => hist::err_class(&e.to_string()).to_string(),
+                    };
+                    sessions.remove(s);
+                    o
+                }
+            },
+            DOp::Drop(s) => match sessions.remove(s) {
+                None => "nosession".into(),
+                Some(x) => {
+                    drop(x);
+                    "ok".into()
+                }
+            },
+            DOp::Exec(s, st) => match sessions.get_mut(s) {
+                None => "nosession".into(),
+                Some(x) => {
+                    let r = x.execute(&sql_of(st)).map_err(|e| e.to_string());
+                    hist::show_result(r, is_read(st), &mut diag)
+                }
+            },
+            DOp::Auto(st) => {
+                let r = db.execute(&sql_of(st)).map_err(|e| e.to_string());
+                hist::show_result(r, is_read(st), &mut diag)
+            }
+            DOp::Reopen => {
+                sessions.clear();
+                drop(db);
+                match Database::open(&path, DBConfig::default()) {
+                    Ok(d) => {
+                        db = d;
+                        "ok".to_string()
+                    }
+                    Err(e) => return format!("{} open-failed ## {}", outs.join(" "), e),
+                }
+            }
+        };
+        outs.push(o);
+    }
+    drop(sessions);
+    let mut fin: Vec<String> = Vec::new();
+    for t in tables_of(ops) {
+        let r = db.execute(&format!("SELECT * FROM {}", t)).map_err(|e| e.to_string());
+        fin.push(format!("{}={}", t, hist::show_result(r, true, &mut diag)));
+    }
+    drop(db);
+    let mut line = format!("{} | {}", outs.join(" "), fin.join(" "));
+    if !diag.is_empty() {
+        line.push_str(" ## ");
+        line.push_str(&diag.join(" // "));
+    }
+    line
+}
+
+// ------------------------------------------------------------------------------------------------ generation
+//
+// A case is a random walk over two or three table names.  The generator tracks the committed catalog (columns, row
+// count) to build valid and deliberately invalid statements.  Clean region: CREATE TABLE anywhere; DROP TABLE,
+// constraints, SET / DROP NOT NULL in autocommit or in a session that commits; ADD / DROP COLUMN on empty tables;
+// DML around them; reopen.  Finding features (at most one per case):
+//   alter_populated       ADD / DROP COLUMN on a table that has rows                      (region)
+//   drop_in_open_txn      DROP TABLE inside a session that rolls back, or while another open session reads it   (region)
+//   index_ddl_rollback    CREATE UNIQUE INDEX / ADD CONSTRAINT inside a session that rolls back                   (region)
+//   alter_rollback        other ALTER inside a session that rolls back       (flag updateKeepsInserterXmin)
+//   concurrent_create     two open sessions create the same name             (flag uniqueNotRecheckedAtCommit)
+
+#[derive(Clone)]
+struct GTable {
+    cols: Vec<(String, &'static str)>, // (name, type)
+    rows: usize,
+    next_key: i64,
+    /// some INSERT into the table was ever executed, committed or not: the row is physically in the table
+    dirty: bool,
+}
+
+fn g_ins(t: &str, g: &mut GTable) -> String {
+    let k = g.next_key;
+    g.next_key += 1;
+    g.rows += 1;
+    g.dirty = true;
+    let vals: Vec<String> = g
+        .cols
+        .iter()
+        .enumerate()
+        .map(|(i, (_, ty))| if *ty == "text" { "'a'".to_string() } else if i == 0 { k.to_string() } else { (10 * k + i as i64).to_string() })
+        .collect();
+    format!("ins {} {}", t, vals.join(" "))
+}
+
+fn g_create(rng: &mut Rng, t: &str) -> (String, GTable) {
+    let n = rng.range(2, 3) as usize;
+    let names = ["k", "v", "w"];
+    let mut cols = Vec::new();
+    let mut spec = Vec::new();
+    for i in 0..n {
+        let ty = if i == 0 { "big" } else { *rng.pick(&["int", "int", "text"]) };
+        cols.push((names[i].to_string(), ty));
+        let mut c = format!("{}:{}", names[i], ty);
+        if i == 0 && rng.chance(1, 8) {
+            c.push('*');
+        }
+        spec.push(c);
+    }
+    (format!("ct {}({})", t, spec.join(",")), GTable { cols, rows: 0, next_key: 1, dirty: false })
+}
+
+fn gen_c15(rng: &mut Rng, out: &mut Vec<Case>) {
+    let names = ["t", "u"];
+    let mut cat: BTreeMap<String, GTable> = BTreeMap::new();
+    let mut ops: Vec<String> = Vec::new();
+    let mut tags: Vec<String> = vec!["c15".into()];
+    let mut add_tag = |tags: &mut Vec<String>, t: &str| {
+        if !tags.iter().any(|x| x == t) {
+            tags.push(t.to_string());
+        }
+    };
+    let feature = match rng.below(100) {
+        0..=69 => "",
+        70..=78 => "alter_populated",
+        79..=85 => "drop_in_open_txn",
+        86..=91 => "index_ddl_rollback",
+        92..=97 => "alter_rollback",
+        _ => "concurrent_create",
+    };
+    let n_steps = rng.range(4, 9);
+    // catalog entries created so far (tables, unique indexes, warm-up); most cases stay below the point where the
+    // meta page fills up (see `catalog_pressure` below), a few are allowed beyond it
+    let cap: i64 = if rng.chance(1, 25) { 100 } else { 5 };
+    let created = |ops: &Vec<String>| -> i64 {
+        let mut n = 1;
+        for blk in ops {
+            for op in blk.split(" ; ") {
+                let ws: Vec<&str> = op.split_whitespace().collect();
+                if ws.len() >= 3 {
+                    match ws[1] {
+                        "ct" => n += 1 + ws[2].matches('*').count() as i64 + ws[2].matches('/').count() as i64,
+                        "ci" | "ak" => n += 1,
+                        _ => {}
+                    }
+                }
+            }
+        }
+        n
+    };
+    let feature_at = rng.below(n_steps as u64) as i64;
+    let mut nt = false;
+    let mut extra_col = 0;
+    for step in 0..n_steps {
+        // make sure something exists
+        if (cat.is_empty() || (cat.len() < 2 && rng.chance(1, 3))) && (cat.is_empty() || created(&ops) + 2 <= cap) {
+            let t = names.iter().find(|n| !cat.contains_key(**n)).unwrap();
+            let (sql, g) = g_create(rng, t);
+            match rng.below(4) {
+                0 => {
+                    // created and populated inside a session that commits, observed from outside before and after
+                    let mut g = g;
+                    ops.push(format!("s1 begin ; s1 {} ; s1 {} ; s1 sel {} ; db sel {} ; s1 commit ; db sel {}", sql, g_ins(t, &mut g), t, t, t));
+                    cat.insert(t.to_string(), g);
+                    add_tag(&mut tags, "create_in_committed_txn");
+                }
+                1 => {
+                    // created inside a session that rolls back: the name must stay free
+                    let mut g2 = g.clone();
+                    ops.push(format!("s1 begin ; s1 {} ; s1 {} ; s1 sel {} ; s1 {} ; db sel {}", sql, g_ins(t, &mut g2), t, if rng.chance(1, 2) { "rollback" } else { "drop" }, t));
+                    add_tag(&mut tags, "create_in_rolled_back_txn");
+                    nt = true;
+                }
+                _ => {
+                    ops.push(format!("db {}", sql));
+                    cat.insert(t.to_string(), g);
+                }
+            }
+            continue;
+        }
+        let tnames: Vec<String> = cat.keys().cloned().collect();
+        let t = rng.pick(&tnames).clone();
+        if step == feature_at && !feature.is_empty() && created(&ops) + 2 <= cap {
+            let g = cat.get_mut(&t).unwrap();
+            match feature {
+                "alter_populated" => {
+                    if g.rows == 0 {
+                        ops.push(format!("db {}", g_ins(&t, g)));
+                    }
+                    if rng.chance(1, 2) || g.cols.len() < 2 {
+                        extra_col += 1;
+                        let cn = format!("x{}", extra_col);
+                        ops.push(format!("db ac {} {}:int{}", t, cn, if rng.chance(1, 2) { "=7" } else { "" }));
+                        g.cols.push((cn, "int"));
+                    } else {
+                        let i = rng.range(1, g.cols.len() as i64 - 1) as usize;
+                        let cn = g.cols.remove(i).0;
+                        ops.push(format!("db dc {} {}", t, cn));
+                    }
+                    ops.push(format!("db sel {}", t));
+                    add_tag(&mut tags, "alter_populated");
+                    nt = true;
+                }
+                "drop_in_open_txn" => {
+                    if rng.chance(1, 2) {
+                        ops.push(format!("s1 begin ; s1 dt {} ; s1 sel {} ; s1 {} ; db sel {}", t, t, if rng.chance(1, 2) { "rollback" } else { "drop" }, t));
+                    } else {
+                        ops.push(format!("s2 begin ; s2 sel {} ; s1 begin ; s1 dt {} ; s1 commit ; s2 sel {} ; s2 commit ; db sel {}", t, t, t, t));
+                        cat.remove(&t);
+                    }
+                    add_tag(&mut tags, "drop_in_open_txn");
+                    nt = true;
+                }
+                "index_ddl_rollback" => {
+                    let how = if rng.chance(1, 2) { "ci" } else { "ak" };
+                    let g = cat.get_mut(&t).unwrap();
+                    g.dirty = true;
+                    ops.push(format!("s1 begin ; s1 {} {} k ; s1 {} ; s1 rollback ; db {} ; db sel {}", how, t, g_ins(&t, &mut g.clone()), g_ins(&t, g), t));
+                    add_tag(&mut tags, "index_ddl_rollback");
+                    nt = true;
+                }
+                "alter_rollback" => {
+                    let g = cat.get_mut(&t).unwrap();
+                    let end = if rng.chance(1, 2) { "rollback" } else { "drop" };
+                    if !g.dirty && rng.chance(1, 2) {
+                        // ADD COLUMN rolled back: a row of the old shape must still be accepted
+                        extra_col += 1;
+                        ops.push(format!("s1 begin ; s1 ac {} y{}:int ; s1 {} ; db sel {} ; db {} ; db sel {}", t, extra_col, end, t, g_ins(&t, g), t));
+                    } else if g.cols.len() > 1 && g.cols[1].1 == "int" {
+                        // SET NOT NULL rolled back: a NULL must still be accepted
+                        let c = g.cols[1].0.clone();
+                        let k = g.next_key;
+                        g.next_key += 1;
+                        g.rows += 1;
+                        g.dirty = true;
+                        let mut vals: Vec<String> = g.cols.iter().map(|(_, ty)| if *ty == "text" { "'a'".to_string() } else { k.to_string() }).collect();
+                        vals[1] = "null".into();
+                        ops.push(format!("s1 begin ; s1 sn {} {} ; s1 {} ; db ins {} {} ; db sel {}", t, c, end, t, vals.join(" "), t));
+                    } else {
+                        let c = g.cols.last().unwrap().0.clone();
+                        ops.push(format!("s1 begin ; s1 dn {} {} ; s1 {} ; db {} ; db sel {}", t, c, end, g_ins(&t, g), t));
+                    }
+                    add_tag(&mut tags, "alter_rollback");
+                    nt = true;
+                }
+                _ => {
+                    let free = names.iter().find(|n| !cat.contains_key(**n));
+                    if let Some(n) = free {
+                        ops.push(format!("s1 begin ; s2 begin ; s1 ct {}(k:big) ; s2 ct {}(k:int) ; s1 commit ; s2 commit ; db sel {}", n, n, n));
+                        cat.insert(n.to_string(), GTable { cols: vec![("k".into(), "big")], rows: 0, next_key: 1, dirty: false });
+                        add_tag(&mut tags, "concurrent_create");
+                    }
+                }
+            }
+            continue;
+        }
+        let g = cat.get_mut(&t).unwrap();
+        let room = cap - created(&ops);
+        let mut pick = rng.below(14);
+        // steps 4, 5, 8, 12, 13 create catalog entries
+        if room < 2 && matches!(pick, 4 | 5 | 8 | 12 | 13) {
+            pick = *rng.pick(&[0u64, 1, 3, 7, 9, 10]);
+        }
+        match pick {
+            0 | 1 | 2 => {
+                ops.push(format!("db {}", g_ins(&t, g)));
+                ops.push(format!("db sel {}", t));
+            }
+            3 => {
+                // session with DML that commits or rolls back, while an observer reads another table (frame)
+                let other = tnames.iter().find(|x| **x != t);
+                let end = if rng.chance(1, 2) { "commit" } else { "rollback" };
+                let mut g2 = g.clone();
+                let ins = g_ins(&t, &mut g2);
+                g.dirty = true;
+                let mut blk = format!("s1 begin ; s1 {}", ins);
+                if let Some(o) = other {
+                    blk.push_str(&format!(" ; db sel {}", o));
+                }
+                blk.push_str(&format!(" ; s1 {} ; db sel {}", end, t));
+                if end == "commit" {
+                    *g = g2;
+                }
+                ops.push(blk);
+            }
+            4 => {
+                // drop (autocommit), the name is free again; sometimes re-created with another shape at once
+                ops.push(format!("db dt {}", t));
+                ops.push(format!("db sel {}", t));
+                cat.remove(&t);
+                add_tag(&mut tags, "drop_table");
+                if rng.chance(1, 2) {
+                    let (sql, g) = g_create(rng, &t);
+                    ops.push(format!("db {}", sql));
+                    ops.push(format!("db sel {}", t));
+                    cat.insert(t.clone(), g);
+                    add_tag(&mut tags, "name_reused");
+                }
+            }
+            5 => {
+                // drop + create of the same name inside one committed session
+                let (sql, mut g2) = g_create(rng, &t);
+                ops.push(format!("s1 begin ; s1 dt {} ; s1 {} ; s1 {} ; s1 sel {} ; s1 commit ; db sel {}", t, sql, g_ins(&t, &mut g2), t, t));
+                cat.insert(t.clone(), g2);
+                add_tag(&mut tags, "drop_table");
+                add_tag(&mut tags, "name_reused");
+            }
+            6 => {
+                // column added / dropped while the table is empty
+                if !g.dirty {
+                    if rng.chance(1, 2) || g.cols.len() < 2 {
+                        extra_col += 1;
+                        let cn = format!("x{}", extra_col);
+                        ops.push(format!("db ac {} {}:int", t, cn));
+                        g.cols.push((cn, "int"));
+                        add_tag(&mut tags, "add_column_empty");
+                    } else {
+                        let cn = g.cols.pop().unwrap().0;
+                        ops.push(format!("db dc {} {}", t, cn));
+                        add_tag(&mut tags, "drop_column_empty");
+                    }
+                    ops.push(format!("db {}", g_ins(&t, g)));
+                    ops.push(format!("db sel {}", t));
+                    nt = true;
+                }
+            }
+            7 => {
+                // NOT NULL set / dropped (autocommit or in a committed session), then a NULL is tried
+                if g.cols.len() > 1 && g.cols[1].1 == "int" {
+                    let c = g.cols[1].0.clone();
+                    let which = if rng.chance(1, 2) { "sn" } else { "dn" };
+                    if rng.chance(1, 2) {
+                        ops.push(format!("db {} {} {}", which, t, c));
+                    } else {
+                        ops.push(format!("s1 begin ; s1 {} {} {} ; s1 commit", which, t, c));
+                    }
+                    let k = g.next_key;
+                    let mut vals: Vec<String> = g.cols.iter().map(|(_, ty)| if *ty == "text" { "'a'".to_string() } else { k.to_string() }).collect();
+                    vals[1] = "null".into();
+                    ops.push(format!("db ins {} {}", t, vals.join(" ")));
+                    ops.push(format!("db sel {}", t));
+                    // the model decides whether the NULL row went in; the generator only needs the key to stay fresh
+                    g.next_key += 1;
+                    g.rows += 1;
+                    g.dirty = true;
+                    add_tag(&mut tags, "not_null_ddl");
+                    nt = true;
+                }
+            }
+            8 => {
+                // unique key added by CREATE UNIQUE INDEX / ALTER (autocommit), then a duplicate is tried
+                if g.cols[0].1 == "big" && !tags.iter().any(|x| x == "key_added") {
+                    ops.push(format!("db {} {} k", if rng.chance(1, 2) { "ci" } else { "ak" }, t));
+                    ops.push(format!("db {}", g_ins(&t, g)));
+                    let dup = g.next_key - 1;
+                    let vals: Vec<String> = g.cols.iter().enumerate().map(|(i, (_, ty))| if *ty == "text" { "'a'".to_string() } else if i == 0 { dup.to_string() } else { "1".to_string() }).collect();
+                    ops.push(format!("db ins {} {}", t, vals.join(" ")));
+                    ops.push(format!("db sel {}", t));
+                    add_tag(&mut tags, "key_added");
+                    nt = true;
+                }
+            }
+            9 => {
+                // statements on names that do not exist, on existing names that must be refused
+                let missing = names.iter().find(|n| !cat.contains_key(**n)).copied().unwrap_or("zz");
+                match rng.below(4) {
+                    0 => ops.push(format!("db sel {}", missing)),
+                    1 => ops.push(format!("db dt {}", missing)),
+                    2 => ops.push(format!("db ct {}(k:big)", t)),
+                    _ => ops.push(format!("db dc {} qq", t)),
+                }
+                add_tag(&mut tags, "refused_ddl");
+            }
+            10 | 11 => {
+                ops.push("reopen".into());
+                for n in &tnames {
+                    ops.push(format!("db sel {}", n));
+                }
+                add_tag(&mut tags, "reopen");
+            }
+            12 => {
+                // an open session loses its work at reopen
+                let mut g2 = g.clone();
+                g.dirty = true;
+                ops.push(format!("s1 begin ; s1 {} ; s1 ct zz(k:big) ; reopen ; db sel {} ; db sel zz", g_ins(&t, &mut g2), t));
+                add_tag(&mut tags, "reopen");
+                add_tag(&mut tags, "reopen_with_open_session");
+                nt = true;
+            }
+            _ => {
+                // a reader that began before a CREATE commits does not resolve the name; a later one does
+                let free = names.iter().find(|n| !cat.contains_key(**n));
+                if let Some(n) = free {
+                    ops.push(format!("s2 begin ; db ct {}(k:big,v:int) ; db ins {} 1 2 ; s2 sel {} ; s2 commit ; db sel {}", n, n, n, n));
+                    cat.insert(n.to_string(), GTable { cols: vec![("k".into(), "big"), ("v".into(), "int")], rows: 1, next_key: 2, dirty: true });
+                    add_tag(&mut tags, "name_visibility");
+                }
+            }
+        }
+    }
+    // catalog pressure (region): the meta table's page gets full after about six catalog entries (tables, unique
+    // indexes, the warm-up table); a catalog entry growing after that point corrupts the catalog tree
+    // (`Expected overflow frame`, every name stops resolving) — a B+tree defect reported separately.
+    // Conservative predictor: the largest number of catalog entries ever alive in the case.
+    let line = ops.join(" ; ");
+    let mut alive: i64 = 1;
+    let mut peak: i64 = 1;
+    for op in line.split(" ; ") {
+        let ws: Vec<&str> = op.split_whitespace().collect();
+        if ws.len() >= 3 {
+            match ws[1] {
+                "ct" => alive += 1 + ws[2].matches('*').count() as i64 + ws[2].matches('/').count() as i64,
+                "ci" | "ak" => alive += 1,
+                // dropped entries stay in the meta page as dead tuples: nothing is subtracted
+                _ => {}
+            }
+        }
+        peak = peak.max(alive);
+    }
+    let has_feature = ["alter_populated", "drop_in_open_txn", "index_ddl_rollback", "alter_rollback", "concurrent_create"]
+        .iter()
+        .any(|f| tags.iter().any(|t| t == *f));
+    if peak >= 6 {
+        if has_feature {
+            // a case carries at most one finding feature: this one is not emitted
+            return;
+        }
+        tags.push("catalog_pressure".into());
+    }
+    let kf = ["alter_populated", "drop_in_open_txn", "index_ddl_rollback", "alter_rollback", "concurrent_create", "catalog_pressure"]
+        .iter()
+        .find(|f| tags.iter().any(|t| t == *f));
+    match kf {
+        Some(f) => tags.push(format!("kf:{}", f)),
+        None => tags.push("clean".into()),
+    }
+    if nt {
+        tags.push("nt".into());
+    }
+    out.push(Case { line: format!("ddl | {}", line), tags });
+}
+
+/// DROP COLUMN (last / middle / first) then ADD COLUMN (same name / new name) on a table that never held a row, rows
+/// inserted afterwards, and every column name — dropped, re-added, new, surviving — resolved by a later statement;
+/// in autocommit or inside a committed session, sometimes followed by reopen.  (A stale name → position map in the
+/// stored schema shows only through these follow-ups.)
+fn gen_drop_then_add(rng: &mut Rng, out: &mut Vec<Case>) {
+    let t = "t";
+    let n = rng.range(2, 4) as usize;
+    let names = ["a", "b", "c", "d"];
+    let mut cols: Vec<String> = names[..n].iter().map(|x| x.to_string()).collect();
+    let mut ops: Vec<String> = Vec::new();
+    ops.push(format!("db ct {}({})", t, cols.iter().map(|c| format!("{}:int", c)).collect::<Vec<_>>().join(",")));
+    let mut ever: Vec<String> = cols.clone();
+    let in_session = rng.chance(1, 3);
+    let pfx = if in_session { "s1" } else { "db" };
+    if in_session {
+        ops.push("s1 begin".into());
+    }
+    let rounds = rng.range(1, 2);
+    let mut fresh = 0;
+    for _ in 0..rounds {
+        if cols.len() < 2 {
+            break;
+        }
+        let which = match rng.below(3) {
+            0 => cols.len() - 1,
+            1 => cols.len() / 2,
+            _ => 0,
+        };
+        let gone = cols.remove(which);
+        ops.push(format!("{} dc {} {}", pfx, t, gone));
+        ops.push(format!("{} sel {} where {} ge 0", pfx, t, gone));
+        let newname = if rng.chance(1, 2) {
+            gone.clone()
+        } else {
+            fresh += 1;
+            format!("n{}", fresh)
+        };
+        ops.push(format!("{} ac {} {}:int", pfx, t, newname));
+        cols.push(newname.clone());
+        if !ever.contains(&newname) {
+            ever.push(newname);
+        }
+    }
+    // an existing column name must be refused (the table is still empty: no schema change, no populated ALTER)
+    ops.push(format!("{} ac {} {}:int", pfx, t, cols[0]));
+    if in_session {
+        ops.push("s1 commit".into());
+    }
+    // rows after all ALTERs: value of column i of row r is 10*r + i
+    for r in 1..=2 {
+        let vals: Vec<String> = (0..cols.len()).map(|i| (10 * r + i as i64).to_string()).collect();
+        ops.push(format!("db ins {} {}", t, vals.join(" ")));
+    }
+    let probe = |ops: &mut Vec<String>| {
+        ops.push(format!("db sel {}", t));
+        for c in &ever {
+            ops.push(format!("db sel {} where {} ge 0", t, c));
+        }
+    };
+    probe(&mut ops);
+    if rng.chance(1, 2) {
+        ops.push("reopen".into());
+        probe(&mut ops);
+    }
+    let tags: Vec<String> = vec!["c15".into(), "drop_then_add_column".into(), "nt".into(), "clean".into()];
+    out.push(Case { line: format!("ddl | {}", ops.join(" ; ")), tags });
+}
+
+impl Engine for DdlEngine {
+    fn gen_cases(&self, rng: &mut Rng, tier: Tier) -> Vec<Case> {
+        let mut out = Vec::new();
+        for _ in 0..(if tier == Tier::Quick { 150 } else { 1500 }) {
+            gen_drop_then_add(rng, &mut out);
+        }
+        let want = if tier == Tier::Quick { 600 } else { 6000 };
+        let want = want + out.len();
+        while out.len() < want {
+            gen_c15(rng, &mut out);
+        }
+        out
+    }
+    fn exec(&mut self, line: &str) -> String {
+        run_case(line)
+    }
+    fn timeout_ms(&self) -> u64 {
+        120_000
     }
 }
 
